@@ -31,6 +31,14 @@ var (
 	seenMu   sync.Mutex
 )
 
+// odd: like tiny, but every vector length is NOT a power of two (index arithmetic by mask instead of
+// modulo, padding leaves) and SLOTS_PER_EPOCH is not one either.
+var oddOverride = map[string]uint64{
+	"SLOTS_PER_EPOCH": 6, "SLOTS_PER_HISTORICAL_ROOT": 12, "EPOCHS_PER_HISTORICAL_VECTOR": 10, "EPOCHS_PER_SLASHINGS_VECTOR": 6,
+	"VALIDATOR_REGISTRY_LIMIT": 44, "SYNC_COMMITTEE_SIZE": 12, "HISTORICAL_ROOTS_LIMIT": 6, "EPOCHS_PER_ETH1_VOTING_PERIOD": 2,
+	"MAX_ATTESTATIONS": 3, "PENDING_DEPOSITS_LIMIT": 7, "PENDING_PARTIAL_WITHDRAWALS_LIMIT": 5, "PENDING_CONSOLIDATIONS_LIMIT": 3,
+}
+
 func presetConfig(preset string) *refspec.Config {
 	switch preset {
 	case "minimal":
@@ -39,6 +47,14 @@ func presetConfig(preset string) *refspec.Config {
 		cfg := refspec.Official("minimal").Clone()
 		cfg.Name = "custom"
 		for k, v := range tinyOverride {
+			cfg.U[k] = v
+		}
+		cfg.Invalidate()
+		return cfg
+	case "odd":
+		cfg := refspec.Official("minimal").Clone()
+		cfg.Name = "custom"
+		for k, v := range oddOverride {
 			cfg.U[k] = v
 		}
 		cfg.Invalidate()
